@@ -97,13 +97,16 @@ def _atoms():
         M.UInt16(2**16 - 1), M.Int32(-1), M.UInt32(2**32 - 1),
         M.Int64(-2**63), M.Int64(5), M.UInt64(2**64 - 1),
         M.Signature('a{sv}'), M.ObjectPath('/a/b'),
+        # subclasses of the built-in types whose str() is not their value
+        # (str-mixin enumeration members are such)
+        space._OddStr('odd'), space._OddInt(7), space._OddFloat(2.5),
     ]
 
 
 def _small_atoms():
     from txdbus import marshal as M
     return [True, 1, 2**40, 1.5, 'a', M.Byte(7), M.UInt32(2**32 - 1),
-            M.ObjectPath('/a'), bytearray(b'x')]
+            M.ObjectPath('/a'), bytearray(b'x'), space._OddStr('odd')]
 
 
 WRAPPER_CODES = {'Byte': 'y', 'Boolean': 'b', 'Int16': 'n', 'UInt16': 'q',
@@ -399,7 +402,7 @@ def _containers(pool, keypool, width=2):
 def _keys():
     from txdbus import marshal as M
     return ['a', 'b', 1, 2, M.Byte(3), M.Byte(4), True, M.ObjectPath('/k'),
-            1.5, 2**40, M.UInt64(9)]
+            1.5, 2**40, M.UInt64(9), space._OddStr('ok')]
 
 
 def _level1(quick):
@@ -416,6 +419,18 @@ def _task_values(task):
             _check_value(res, a, quick)
             res.count('nontrivial')
         res.sample({'atoms': [repr(a) for a in atoms[:12]]})
+        import collections
+        for v in (collections.OrderedDict([('a', 1), ('b', 2)]),
+                  collections.OrderedDict([(space._OddStr('k'), 'v')]),
+                  space._SubDict({'k': 'v'}), space._SubDict({1: 2.5}),
+                  space._SubList([1, 2]), space._SubList([]),
+                  space._SubList(['a', space._OddStr('b')]),
+                  [space._OddStr('b'), 'a'], space._NT(1, 's'),
+                  [space._NT(1, 's'), space._NT(2, 't')],
+                  {'k': space._NT(space._OddInt(3), space._OddStr('z'))},
+                  (space._OddStr('p'), space._OddFloat(0.5))):
+            _check_value(res, v, quick)
+            res.count('nontrivial')
     l1 = _level1(quick)
     for i, v in enumerate(l1):
         if i % nparts == part:
@@ -512,7 +527,9 @@ def _task_long(quick):
 def run(ctx):
     Kf, Kr = (4, 5) if ctx.quick else (5, 6)
     ctx.rule = (
-        'A: every signature sequence with <= %d nodes over the full alphabet '
+        '(atoms and keys of part B include str / int / float subclasses '
+        'whose str() is not their value, OrderedDict, list subclass and '
+        'namedtuple values) A: every signature sequence with <= %d nodes over the full alphabet '
         'and <= %d over the reduced one, generated together with its '
         'decomposition by the reference grammar, plus deep/long families: '
         'genCompleteTypes must return the decomposition and Method/Signal '
@@ -545,6 +562,9 @@ def replay(data):
         from txdbus import marshal as M
         env = {n: getattr(M, n) for n in WRAPPER_CODES}
         env['bytearray'] = bytearray
+        env.update(space.ODD_ENV)
+        import collections
+        env['OrderedDict'] = collections.OrderedDict
         v = eval(data['value'], env)
         if data.get('poisoned'):
             _check_after_failed_inference(res, v, False)
